@@ -2,12 +2,15 @@
 //! of the `watchexec` lib crate, against the environment models under /verif/models
 //! (tokio-full, async-priority-channel, tracing no-ops). The harness is the executor and the clock.
 #![cfg(kani)]
+#![feature(allocator_api)]
 #![allow(clippy::all, static_mut_refs)]
 
 pub mod util;
 pub mod scen;
+pub mod errloop;
 
 pub use scen::*;
+pub use errloop::*;
 
 mod playback {
     #[allow(unused_imports)]
